@@ -206,3 +206,11 @@ Example C13_nv_second_pass :
   tile_origin (mk_irect (-71) (-84) 40 30) (mk_irect (-91) (-94) 600 600) = Some (20%Z, 10%Z) /\
   feimage_device_pos (-120) (-120) (mk_irect 150 160 40 30) (mk_irect 0 0 300 300) = (30%Z, 40%Z).
 Proof. repeat split; vm_compute; reflexivity. Qed.
+
+(* ------------------------------------------------------------------ round 5: no unregistered way to skip a node
+   render_exits: Gen/RenderExits.v (source-derived from render.rs render_nodes / render_node, path.rs render / fill_path /
+   stroke_path, image.rs render / render_inner / render_vector / render_raster); render_exits_expected: the registered table *)
+From RV Require Import Gen.RenderExits Model.RenderExits.
+Theorem C13_render_exits_registered : render_exits = render_exits_expected.
+Proof. reflexivity. Qed.
+Print Assumptions C13_render_exits_registered.
